@@ -1,6 +1,6 @@
 /-
 C12, tie to the source: `SurvivalGFormula.fit` (zepid/causal/gformula/TimeFixed.py, from `g = self.gf.copy()` to the
-end, `_weighted_average` inlined), regenerated on every run into `Gen/SurvGF.lean`, computes the model `ZV.SurvGF`
+end, unweighted branch), regenerated on every run into `Gen/SurvGF.lean`, computes the model `ZV.SurvGF`
 that `survival_product_limit` and `cuminc_monotone_bounded` (Props/C12.lean) are about; and the three NaN-aware
 statements of `IterativeCondGFormula.fit`'s backward loop (zepid/causal/gformula/TimeVary.py: pseudo-outcome, masked
 prediction, final mean), regenerated into `Gen/IceStep.lean`, are the steps of the model `ZV.Ice` that
@@ -26,9 +26,10 @@ def predOf (b : Bool) (r : LRow F) : F := if b then r.h1 else r.h0
     `self.gf` = the complete records sorted by (id, time): the outcome column of `predicted_df` is the model's `cumInc`
     (one minus the running product, within person, of one minus the predicted hazard under the plan) and
     `marginal_outcome` at time `t` is the model's `marginalAt` (mean over the records at that time) — for
-    `'all'`, `'none'`, `'natural'` and for a custom condition (any other string; `r.c` = its value on the row). -/
-theorem survgf_fit_generated (p : SurvGF.Plan) (rows : List (LRow F)) (wl : List F) :
-    Gen.survgf_fit p.str false predOf wl (prep rows) = (fun t => marginalAt p rows t, cumInc p rows) := by
+    `'all'`, `'none'`, `'natural'` and for a custom condition (any other string; `r.c` = its value on the row).  The
+    weighted branch of `fit` (`_weighted_average`) is not part of the translated text: weights are C09's subject. -/
+theorem survgf_fit_generated (p : SurvGF.Plan) (rows : List (LRow F)) :
+    Gen.survgf_fit p.str predOf (prep rows) = (fun t => marginalAt p rows t, cumInc p rows) := by
   have hc : ∀ (e : LRow F → Bool), (∀ r, predOf (e r) r = hazard p r) →
       (groupCumprod ((prep rows).map fun r => r.id) ((prep rows).map fun r => ((1 : Nat) : F) - predOf (e r) r)).map
         (fun v => ((1 : Nat) : F) - v) = cumInc p rows := by
@@ -56,40 +57,10 @@ theorem survgf_fit_generated (p : SurvGF.Plan) (rows : List (LRow F)) (wl : List
 
 /-- the custom branch is taken for every string that is not one of the three keywords -/
 theorem survgf_fit_generated_custom (s : String) (h1 : s ≠ "all") (h2 : s ≠ "none") (h3 : s ≠ "natural")
-    (hasWeights : Bool) (pred : Bool → LRow F → F) (wl : List F) (l : List (LRow F)) :
-    Gen.survgf_fit s hasWeights pred wl l = Gen.survgf_fit "custom" hasWeights pred wl l := by
+    (pred : Bool → LRow F → F) (l : List (LRow F)) :
+    Gen.survgf_fit s pred l = Gen.survgf_fit "custom" pred l := by
   simp only [Gen.survgf_fit, h1, h2, h3, if_false, show ¬ ("custom" = "all") by decide,
     show ¬ ("custom" = "none") by decide, show ¬ ("custom" = "natural") by decide]
-
-/-- **survgf_weighted_generated.**  With a weight column the regenerated code returns the same `predicted_df` and the
-    weighted mean by time `Σ_{t_i = t} w_i·c_i / Σ_{t_i = t} w_i` of the model's cumulative incidences `c`. -/
-theorem survgf_weighted_generated (p : SurvGF.Plan) (rows : List (LRow F)) (wl : List F) :
-    Gen.survgf_fit p.str true predOf wl (prep rows)
-      = (fun t => groupSumAt ((prep rows).map fun r => r.t) (List.zipWith (fun u v => u * v) (cumInc p rows) wl) t
-          / groupSumAt ((prep rows).map fun r => r.t) wl t, cumInc p rows) := by
-  have hc : ∀ (e : LRow F → Bool), (∀ r, predOf (e r) r = hazard p r) →
-      (groupCumprod ((prep rows).map fun r => r.id) ((prep rows).map fun r => ((1 : Nat) : F) - predOf (e r) r)).map
-        (fun v => ((1 : Nat) : F) - v) = cumInc p rows := by
-    intro e he
-    rw [groupCumprod_map]
-    simp only [he]
-    rfl
-  have h1 : (wl.map fun v => v * ((1 : Nat) : F)) = wl := by
-    simp
-  cases p
-  · simp only [Gen.survgf_fit, SurvGF.Plan.str, hc (fun _ => true) (fun r => rfl), h1, Bool.true_eq_false,
-      ↓reduceIte]
-  · simp only [Gen.survgf_fit, SurvGF.Plan.str, show ¬ ("none" = "all") by decide, 
-      hc (fun _ => false) (fun r => rfl), h1, Bool.true_eq_false, ↓reduceIte]
-  · have hn : ∀ r : LRow F, predOf r.a r = hazard .natural r := by
-      intro r; simp only [predOf, hazard]
-    simp only [Gen.survgf_fit, SurvGF.Plan.str, show ¬ ("natural" = "all") by decide,
-      show ¬ ("natural" = "none") by decide, hc (fun r => r.a) hn, h1, Bool.true_eq_false, ↓reduceIte]
-  · have hn : ∀ r : LRow F, predOf r.c r = hazard .custom r := by
-      intro r; simp only [predOf, hazard]
-    simp only [Gen.survgf_fit, SurvGF.Plan.str, show ¬ ("custom" = "all") by decide,
-      show ¬ ("custom" = "none") by decide, show ¬ ("custom" = "natural") by decide, 
-      hc (fun r => r.c) hn, h1, Bool.true_eq_false, ↓reduceIte]
 
 /-! ### IterativeCondGFormula: the statements of the backward loop -/
 
@@ -120,9 +91,9 @@ theorem ice_step_generated (μ : List Bool → List Nat → F) :
 section examples
 local instance : Transc ℚ := ⟨id, id, id⟩
 
-example : Gen.survgf_fit (F := ℚ) "all" false predOf [] (prep exLong) = (fun t => marginalAt .all exLong t, cumInc .all exLong) ∧
+example : Gen.survgf_fit (F := ℚ) "all" predOf (prep exLong) = (fun t => marginalAt .all exLong t, cumInc .all exLong) ∧
     cumInc (F := ℚ) .all exLong = [1/3, 2/3, 1/3, 1/3, 2/3, 1/3, 2/3] ∧ marginalAt (F := ℚ) .all exLong 2 = 2/3 :=
-  ⟨survgf_fit_generated .all exLong [], by decide +kernel, by decide +kernel⟩
+  ⟨survgf_fit_generated .all exLong, by decide +kernel, by decide +kernel⟩
 
 /-- the generated steps on concrete entries: an earlier prediction wins over the observed outcome, a missing
     pseudo-outcome masks the prediction, NaN entries are skipped by the mean -/
